@@ -230,12 +230,14 @@ func (self *Interpreter) infixHelper(lhs ast.AnalyzedExpression, rhs ast.Analyze
 		if i != nil {
 			return nil, nil, i
 		}
+		// Operands are evaluated in program order: the right operand must not change what was read on the left
+		lhsSnapshot := *lhs
 		rhs, i := self.expression(rhs)
 		if i != nil {
 			return nil, nil, i
 		}
 
-		res, i := (*lhs).IsEqual(*rhs)
+		res, i := lhsSnapshot.IsEqual(*rhs)
 		if i != nil {
 			return nil, nil, i
 		}
@@ -245,12 +247,14 @@ func (self *Interpreter) infixHelper(lhs ast.AnalyzedExpression, rhs ast.Analyze
 		if i != nil {
 			return nil, nil, i
 		}
+		// Operands are evaluated in program order: the right operand must not change what was read on the left
+		lhsSnapshot := *lhs
 		rhs, i := self.expression(rhs)
 		if i != nil {
 			return nil, nil, i
 		}
 
-		res, i := (*lhs).IsEqual(*rhs)
+		res, i := lhsSnapshot.IsEqual(*rhs)
 		if i != nil {
 			return nil, nil, i
 		}
@@ -265,12 +269,13 @@ func (self *Interpreter) infixHelper(lhs ast.AnalyzedExpression, rhs ast.Analyze
 		if i != nil {
 			return nil, nil, i
 		}
+		// Read the left operand before the right one is evaluated (program order)
+		lhsInt := (*lhsVal).(value.ValueInt)
 		rhsVal, i := self.expression(rhs)
 		if i != nil {
 			return nil, nil, i
 		}
 
-		lhsInt := (*lhsVal).(value.ValueInt)
 		rhsInt := (*rhsVal).(value.ValueInt)
 
 		// TODO: add checked operations + runtime crashes
@@ -329,12 +334,13 @@ func (self *Interpreter) infixHelper(lhs ast.AnalyzedExpression, rhs ast.Analyze
 		if i != nil {
 			return nil, nil, i
 		}
+		// Read the left operand before the right one is evaluated (program order)
+		lhsFloat := (*lhsVal).(value.ValueFloat)
 		rhsVal, i := self.expression(rhs)
 		if i != nil {
 			return nil, nil, i
 		}
 
-		lhsFloat := (*lhsVal).(value.ValueFloat)
 		rhsFloat := (*rhsVal).(value.ValueFloat)
 
 		// TODO: add checked operations + runtime crashes
@@ -374,6 +380,8 @@ func (self *Interpreter) infixHelper(lhs ast.AnalyzedExpression, rhs ast.Analyze
 			if i != nil {
 				return nil, nil, i
 			}
+			// Read the left operand before the right one is evaluated (program order)
+			lhsBool = (*lhsTemp).(value.ValueBool).Inner
 			rhsTemp, i := self.expression(rhs)
 			if i != nil {
 				return nil, nil, i
@@ -381,7 +389,6 @@ func (self *Interpreter) infixHelper(lhs ast.AnalyzedExpression, rhs ast.Analyze
 			lhsVal = lhsTemp
 			rhsVal = rhsTemp
 
-			lhsBool = (*lhsVal).(value.ValueBool).Inner
 			rhsBool = (*rhsVal).(value.ValueBool).Inner
 		}
 
@@ -431,6 +438,8 @@ func (self *Interpreter) infixHelper(lhs ast.AnalyzedExpression, rhs ast.Analyze
 		if i != nil {
 			return nil, nil, i
 		}
+		// Read the left operand before the right one is evaluated (program order)
+		lhsStr := (*lhsTemp).(value.ValueString).Inner
 		rhsTemp, i := self.expression(rhs)
 		if i != nil {
 			return nil, nil, i
@@ -438,7 +447,7 @@ func (self *Interpreter) infixHelper(lhs ast.AnalyzedExpression, rhs ast.Analyze
 
 		switch operator {
 		case pAst.PlusInfixOperator:
-			strRes := (*lhsTemp).(value.ValueString).Inner + (*rhsTemp).(value.ValueString).Inner
+			strRes := lhsStr + (*rhsTemp).(value.ValueString).Inner
 			return value.NewValueString(strRes), lhsTemp, nil
 		default:
 			panic("A new operator kind was introduced without updating this code")
